@@ -273,6 +273,20 @@ MUTANTS: List[Dict] = [
     M("ok-dispatch-reorder", "benign", AT, "        elif isinstance(node, ast.If):\n            self.handle_if(node)\n        elif isinstance(node, ast.While):\n            self.handle_while(node)\n", "        elif isinstance(node, ast.While):\n            self.handle_while(node)\n        elif isinstance(node, ast.If):\n            self.handle_if(node)\n", []),
     M("ok-codegen-isinstance-return", "benign", AT, "            elif (\n                block.fallthrough\n                and block.tree\n                and type(block.tree[-1]) is ast.Return\n            ):", "            elif (\n                block.fallthrough\n                and len(block.tree) > 0\n                and type(block.tree[-1]) is ast.Return\n            ):", []),
     M("ok-rename-propagator", "benign", TR, None, None, [], "update_exiting renamed everywhere (computed edit)"),
+    M("store6-guard-always-false", "breaking", SCFG, "            if isinstance(block, RegionBlock):\n                for s in successors:\n                    block = update_exiting(block, s, new_name)\n", "            if isinstance(block, RegionBlock):\n                for s in successors:\n                    if s in jt:\n                        block = update_exiting(block, s, new_name)\n", ["STORE-6"], "guard read after the list was rewritten: never true"),
+    M("store6-guard-in-conjunct", "breaking", SCFG, "                if isinstance(block, RegionBlock):\n                    block = update_exiting(block, s, synth_assign)\n", "                if isinstance(block, RegionBlock) and s in block.jump_targets:\n                    block = update_exiting(block, s, synth_assign)\n", ["STORE-6"]),
+    M("ord1-natural-sort", "breaking", SCFG, "        return sorted(headers), sorted(entries)\n", "        return sorted(headers, key=len), sorted(entries)\n", ["ORD-1"], "a sort key that ties keeps the set order"),
+    M("ord5-class-cache", "breaking", RE, "    g: \"Digraph\"\n\n    @abstractmethod\n    def render_basic_block(", "    g: \"Digraph\"\n    _seen: Dict[str, str] = {}\n\n    def remember(self, k: str) -> None:\n        self._seen[k] = k\n\n    @abstractmethod\n    def render_basic_block(", ["ORD-5"]),
+    M("table6-last-block-no-targets", "breaking", FI, "            if term_offset not in self.jump_insts:\n                # implicit jump\n                targets = (names[end],)\n", "            if end == end_offset:\n                targets = ()\n            elif term_offset not in self.jump_insts:\n                # implicit jump\n                targets = (names[end],)\n", ["TABLE-6"]),
+    M("disp1-duck-typed", "breaking", AT, "        if isinstance(\n            node,\n            (\n                ast.AugAssign,\n                ast.Assign,\n                ast.Expr,\n                ast.Return,\n            ),\n        ):", "        if isinstance(node, ast.stmt) and \"value\" in node._fields:", ["DISP-1"], "also matches AnnAssign / TypeAlias"),
+    M("disp4-walk-input", "breaking", AT, "        tree = ast.parse(textwrap.dedent(inspect.getsource(code))).body\n", "        tree = [n for n in ast.walk(ast.parse(textwrap.dedent(inspect.getsource(code)))) if isinstance(n, ast.FunctionDef)]\n", ["DISP-4"]),
+    M("disp9-parent-from-stale", "breaking", SCFG, "                        object.__setattr__(inner, \"parent_region\", region)\n", "                        object.__setattr__(inner, \"parent_region\", region.subregion.region)\n", ["DISP-9"]),
+    M("lower1-keywords-first", "breaking", AT, "            node.args = [self.handle_expression(a) for a in node.args]\n            return node\n", "            for keyword in node.keywords:\n                keyword.value = self.handle_expression(keyword.value)\n            node.args = [self.handle_expression(a) for a in node.args]\n            return node\n", ["LOWER-1"]),
+    M("store11-declare-strips-target", "breaking", BB, "            return replace(self, backedges=(target,))\n", "            return replace(self, backedges=(target,), _jump_targets=self.jump_targets)\n", ["STORE-11"]),
+    M("store8-replace-header-copy", "breaking", BB, "        object.__setattr__(self, \"header\", new_header)\n", "        return replace(self, header=new_header)  # type: ignore\n", ["STORE-8"]),
+    M("total7-recursive-dfs", "breaking", SCFG, "        seen = set()\n        to_vist = list(self.graph[begin].jump_targets)\n        while True:", "        def visit(b: str, seen_: set) -> bool:  # type: ignore\n            if b == end:\n                return True\n            if b in seen_ or b not in self.graph:\n                return False\n            seen_.add(b)\n            return any(visit(t, seen_) for t in self.graph[b].jump_targets)\n\n        if any(visit(t, set()) for t in self.graph[begin].jump_targets):\n            return True\n        return False\n        seen = set()\n        to_vist = list(self.graph[begin].jump_targets)\n        while True:", ["TOTAL-7"]),
+    M("lower11-lookup-cache", "breaking", AT, "    def lookup(self, item: Any) -> Any:\n        subregion_scfg = self.region_stack[-1].subregion\n", "    def lookup(self, item: Any) -> Any:\n        if not hasattr(self, \"resolved\"):\n            self.resolved = {}\n        if item in self.resolved:\n            return self.resolved[item]\n        subregion_scfg = self.region_stack[-1].subregion\n        self.resolved[item] = None\n", ["LOWER-11"]),
+    M("iter1-gate-at-enqueue", "breaking", SCFG, "            if name in seen:\n                continue\n            else:\n                seen.append(name)\n", "            seen.append(name)\n", ["ITER-1"]),
     # ------------------------------------------------ benign
     M("ok-rename-locals", "benign", TR, None, None, [], "rename locals of loop_restructure_helper (computed edit)"),
     M("ok-sorted-key", "benign", TR, "    for name in sorted(loop):\n", "    for name in sorted(loop, key=str):\n", []),
